@@ -13,6 +13,7 @@ GEN_CFG = '''CONSTANTS
   SeedLo = %d
   SeedHi = %d
   WithProps = %s
+  WithComments = %s
 INIT Init
 NEXT Next
 INVARIANT DesignFaithful
@@ -23,8 +24,9 @@ CHECK_DEADLOCK FALSE
 '''
 
 
-def gen_docs(lo: int, hi: int, with_props: bool, rep: core.Report, module: str = 'MC_GenDoc') -> List[Tuple[int, Any]]:
-    res = tlc.require_ok(tlc.run(module, cfg_text=GEN_CFG % (lo, hi, 'TRUE' if with_props else 'FALSE'),
+def gen_docs(lo: int, hi: int, with_props: bool, rep: core.Report, module: str = 'MC_GenDoc',
+             with_comments: bool = False) -> List[Tuple[int, Any]]:
+    res = tlc.require_ok(tlc.run(module, cfg_text=GEN_CFG % (lo, hi, 'TRUE' if with_props else 'FALSE', 'TRUE' if with_comments else 'FALSE'),
                                  workers=core.NCPU, timeout=3000), module)
     if res.violated:
         raise core.Machinery('design-level property %s violated in %s\n%s' % (res.violated, module, res.out[-3000:]))
@@ -40,6 +42,7 @@ FAULT_CFG = '''CONSTANTS
   SeedLo = %d
   SeedHi = %d
   WithProps = %s
+  WithComments = FALSE
 INIT FInit
 NEXT FNext
 INVARIANT Ruled
@@ -79,7 +82,7 @@ def _exec_chunk(items):
     out = []
     for it in items:
         try:
-            text = print_doc(it['doc'], it['fseed'], it['pinned'])
+            text = print_doc(it['doc'], it['fseed'], it['pinned'], it.get('noise'))
         except AssertionError as ex:
             out.append({'tid': it['tid'], 'skip': 'printer: %s' % ex})
             continue
